@@ -103,12 +103,15 @@ func (f *globalMaxInflight) SetState(instance string, requestId int64, current i
 	delta := current - old
 	overflowed := f.add(delta)
 
-	if overflowed > 0 {
+	if overflowed > 0 && delta > 0 {
+		// only a report that raises the total is refused and rolled back
 		atomic.AddInt32(&state.count, -delta)
 		f.add(-delta)
 		return false, old, nil
 	}
-	if overflowed == 0 && current > 0 {
+	if overflowed > 0 || (overflowed == 0 && current > 0) {
+		// applied but not accepted: the total is at the limit, or still above it
+		// (max lowered by Resize) after a report that did not raise it
 		return false, current, nil
 	}
 	return true, current, nil
